@@ -285,6 +285,19 @@ impl<'a> IrV<'a> {
                 let i = self.index(&x[1], st, depth)?;
                 get_acc(&o, &Acc::Idx(i))
             }
+            "intr" => {
+                // (intr Name ret (types…) args…): arguments left to right, the uninterpreted built-in at its resolved signature
+                let ret = ir_ty(&x[1])?;
+                let ptys: Vec<String> = match &x[2] {
+                    Sx::L(ts) => ts.iter().map(|t| ir_ty(t).map(|t| t.show())).collect::<Option<Vec<_>>>()?,
+                    _ => return None,
+                };
+                let mut vals = Vec::new();
+                for a in &x[3..] {
+                    vals.push(self.eval(a, st, depth)?);
+                }
+                vintr(x[0].atom(), &ptys, &vals, &ret)
+            }
             "ctor" => {
                 let t = ir_ty(&x[0])?;
                 let mut comps = Vec::new();
